@@ -52,6 +52,12 @@ CONSTANTS
 Gates == {"gzip_mtime", "ns_time", "model_abspath", "assert_abspath", "model_cache", "pp_carry", "include_order",
           "html_order", "filter_owner"}
 
+(* the targets whose templates / filters sit behind a gate                                                  *)
+GateLangs == [g \in Gates |-> CASE g \in {"gzip_mtime", "ns_time", "model_abspath", "model_cache"} -> {"py"}
+                                 [] g \in {"assert_abspath", "include_order"} -> {"c", "cpp"}
+                                 [] g = "html_order" -> {"html"}
+                                 [] OTHER -> {"c", "cpp", "py", "html"}]
+
 ASSUME /\ OpenSets \subseteq SUBSET Gates
        /\ Langs \subseteq {"c", "cpp", "py", "html"}
        /\ Audits \subseteq BOOLEAN /\ SortedWalk \in BOOLEAN
@@ -124,6 +130,7 @@ Init ==
     /\ user \in types \cup {None}
     /\ dep \in (IF user = None THEN {"none"} ELSE IF Cardinality(types) < 3 THEN {"chain"} ELSE {"star", "chain"})
     /\ lang \in Langs /\ audit \in Audits /\ open \in OpenSets
+    /\ open = {} \/ \E g \in open : lang \in GateLangs[g]    \* elsewhere an open gate changes nothing: covered by open = {}
     /\ amb = <<A1, A1>>                          \* the ambient state of run 2 is chosen when run 2 starts
     /\ run = 1 /\ Fresh
     /\ orders = <<>> /\ fs = <<>>
